@@ -345,6 +345,14 @@ def gen_cases(rng, tier):
         z = _solve_z(sec, d, k, 0)
         out.append(case("secp-sign-s=0-retry", "sign", "secp", [k, k2], d, z))
         out.append(case("secp-sign-s=0-no-more-draws", "sign", "secp", [k], d, z))
+    # pairs of nonce draws that collide under cheap fingerprints (CPython int hash: k and k + j*(2**61-1); low 64 bits),
+    # signed back to back in one process with unrelated keys and digests
+    M61 = 2 ** 61 - 1
+    for i in range(2 if not T else 12):
+        k1 = rng.randrange(1, N // 2)
+        for k2 in (k1 + rng.randrange(1, 6) * M61, k1 + (rng.randrange(1, 2 ** 60) << 64)):
+            out.append(case("secp-sign-fingerprint-pair", "sign", "secp", [k1], rng.randrange(1, N), rng.randrange(0, 2 ** 256)))
+            out.append(case("secp-sign-fingerprint-pair", "sign", "secp", [k2], rng.randrange(1, N), rng.randrange(0, 2 ** 256)))
     # retry branches: invalid inputs
     out.append(case("secp-sign-draws-exhausted", "sign", "secp", [0, 0], 5, 7))
     out.append(case("secp-sign-key-range", "sign", "secp", [3], N, 7))
